@@ -104,6 +104,9 @@ class HistoryRunner:
         idx = list(range(min(n, 40))) + [n, n + 1]
         if n > 40:
             idx += [n - 1, n - 2, n // 2]
+            # windows around every bitfield page edge (32768 bits) and every 8192-block edge below the length
+            for edge in range(8192, n + 8192, 8192):
+                idx += [i for i in range(edge - 34, edge + 3) if 0 <= i]
         for i in idx:
             ia, _ = p.do("has W %d" % i)
             self.expect(k, ("has", i), ia, spec.exp_has(i), "after-%s" % op[0])
@@ -269,6 +272,28 @@ def rnd_block(r):
     else:
         n = r.choice([4095, 4096, 4097, 5000])
     return bytes(r.randrange(256) for _ in range(n))
+
+
+def epoch_history(r):
+    """runs of same-sized single-block appends and single-block clears: oplog entries of equal sizes in
+    consecutive flush epochs (stale bytes behind the live entries line up with entry boundaries), with a
+    reopen at a random point and at the end"""
+    ops, length = [], 0
+    for e in range(r.choice([3, 4, 5])):
+        k = r.choice([1, 2, 3, 4, 5])
+        if e % 2 == 0 or length == 0:
+            for _ in range(k):
+                ops.append(("append", [b"x"])); length += 1
+        else:
+            for _ in range(k):
+                i = r.randrange(length)
+                ops.append(("clear", i, i + 1))
+    if r.random() < 0.5:
+        ops.insert(r.randrange(1, len(ops)), ("reopen",))
+    ops.append(("reopen",))
+    ops.append(("append", [b"y"]))
+    ops.append(("reopen",))
+    return ops
 
 
 def random_history(r, nops, reopen_p=0.12, clear_p=0.15, big_batch_p=0.0):
